@@ -306,6 +306,18 @@ impl Database {
 
     /// Runs WAL recovery to restore database to consistent state.
     fn run_recovery(&self) -> DatabaseResult<()> {
+        let analysis = self.pager.write().run_analysis()?;
+
+        // The header only knows the transaction ids handed out up to the last checkpoint.
+        // The recovery transaction (and every later one) must not reuse the id of a
+        // transaction that is still in the log.
+        if let Some(last_logged) = analysis.lsn_chains.keys().next_back().copied() {
+            let mut pager = self.pager.write();
+            if pager.get_last_created_transaction() <= last_logged {
+                pager.set_last_created_transaction(last_logged + 1);
+            }
+        }
+
         let (tx_ctx, logger) = Self::begin_transaction(
             self.coordinator.clone(),
             self.pager.clone(),
@@ -316,9 +328,6 @@ impl Database {
         // Begin a recovery transaction
         self.task_runner.run(move |ctx| {
             let mut recuperator = WalRecuperator::new(child, logger.clone());
-
-            // Run analysis INSIDE the closure using the cloned pager
-            let analysis = pager.write().run_analysis().map_err(box_err)?;
 
             // Run recovery through recuperator
             recuperator.run_recovery(&analysis).map_err(box_err)?;
